@@ -52,9 +52,10 @@ def gen_case(rng, tier, idx):
         # half of them in the regime where the step size that survives the first 50 iterations is still close to
         # unstable (counts in the hundreds, noise around 1): that is where a missing step reduction shows
         s0 = float(gen.pick(rng, measure.SIGMAS)) if rng.rand() < 0.5 else float(gen.pick(rng, [0.5, 0.85, 1.0, 1.7]))
-        for m_ in meas:
+        two_levels = rng.rand() < 0.4
+        for j_, m_ in enumerate(meas):
             m_['y'] = m_['y'] + 0.0
-            m_['sigma'] = s0
+            m_['sigma'] = s0 * (4.0 if (two_levels and j_ % 2 == 1) else 1.0)
     if oracle == 'pairwise':
         # the factor-graph oracle needs every attribute of the domain in some factor
         covered = set(a for m_ in meas for a in m_['proj'])
@@ -170,6 +171,16 @@ def run_case(case, ctx):
             ctx.check(pf < 1.0, 'convex_primal_feasible', 'infeasible', 'convex oracle returned tables with primal_feasibility %r >= 1.0 after %d iterations' % (pf, iters), **info)
         if not case['exact']:
             return
+        if case['total'] is None:
+            # exact estimation would use the minimum-variance total (C09's reference); so must local estimation
+            from . import c09
+            t_ref = c09.reference_total([dict(Q=(mm['Q'] if mm['Q'] is not None else np.eye(mm['y'].size)), y=mm['y'], sigma=mm['sigma'])
+                                         for mm in case['meas']])
+            if t_ref is not None:
+                ctx.check(abs(total - t_ref) <= 1e-6 * t_ref, 'exact_on_disjoint_cliques', 'total_differs_from_exact_estimation',
+                          '%s: estimated total %r, exact estimation would use %r' % (oracle, total, t_ref), oracle=oracle)
+                if ctx.failures:
+                    return
         fstar, gap, fu2, _p, adequate = estim.optimum(attrs, shape, plain, total)
         if not adequate:
             ctx.mon('oracle_gap_too_large')
